@@ -26,11 +26,7 @@ def static_type(t, schema):
         return static_type(t[2], schema)
     if k == "bin":
         l, r = static_type(t[2], schema), static_type(t[3], schema)
-        if l == "float" or r == "float":
-            return "float"
-        if l == "int" and r == "int":
-            return "int"
-        return None
+        return arith_type(t[1], l, r)
     if k == "call":
         ret = RETURNS.get(t[1])
         if ret == "arg":
@@ -38,6 +34,32 @@ def static_type(t, schema):
         return ret
     if k == "lam":
         return "bool"
+    return None
+
+
+def arith_type(op, l, r):
+    """Result type of an arithmetic operator (OData 4.01 part 2, 5.1.1.2); None = not pinned."""
+    num = ("int", "float")
+    if l in num and r in num:
+        return "float" if "float" in (l, r) else "int"
+    if op == "add":
+        if l in ("datetime", "date") and r == "duration":
+            return l
+        if l == "duration" and r in ("datetime", "date"):
+            return r
+        if l == "duration" and r == "duration":
+            return "duration"
+    if op == "sub":
+        if l in ("datetime", "date") and r == "duration":
+            return l
+        if l == "duration" and r == "duration":
+            return "duration"
+        if l == r and l in ("datetime", "date"):
+            return "duration"       # the difference of two points in time is a duration
+    if op in ("mul", "div") and l == "duration" and r in num:
+        return "duration"
+    if op == "mul" and l in num and r == "duration":
+        return "duration"
     return None
 
 
